@@ -1,6 +1,7 @@
 package main
 
 import (
+	"os"
 	"fmt"
 	"go/token"
 	"go/types"
@@ -476,6 +477,27 @@ func sortedAfter(p *Prog, mr mapRange, ap *ssa.Call) (bool, []*ssa.Call) {
 			return false
 		}
 		o := calleeObj(cl)
+		if os.Getenv("SLUGCHECK_DEBUG") != "" && o != nil && o.Name() == "Slice" {
+			mi, _ := canon(cl.Call.Args[0]).(*ssa.MakeInterface)
+			if mi != nil {
+				fmt.Fprintf(os.Stderr, "isSort: %v inner %T %v canon %T %v storeAddr %p\n", cl, mi.X, mi.X, canon(mi.X), canon(mi.X), storeAddr)
+				if u0, ok := mi.X.(*ssa.UnOp); ok {
+					sts := storesTo(u0.Parent(), u0.X)
+					fmt.Fprintf(os.Stderr, "   load in block %d of %s; stores %d; esc %v\n", u0.Block().Index, u0.Parent().Name(), len(sts), escapesToClosure(u0.X))
+					for _, st := range sts {
+						fmt.Fprintf(os.Stderr, "   store in block %d dominates %v\n", st.Block().Index, dominates(st, u0))
+					}
+					if r := u0.X.Referrers(); r != nil {
+						for _, x := range *r {
+							fmt.Fprintf(os.Stderr, "   ref %T %v\n", x, x)
+						}
+					}
+				}
+				if ld, ok := canon(mi.X).(*ssa.UnOp); ok {
+					fmt.Fprintf(os.Stderr, "   ld.X %p %v\n", ld.X, ld.X)
+				}
+			}
+		}
 		if isFunc(o, "sort", "Slice") || isFunc(o, "sort", "SliceStable") || isFunc(o, "sort", "Strings") || isFunc(o, "sort", "Sort") || isFunc(o, "sort", "Stable") {
 			if len(cl.Call.Args) > 0 && isSame(cl.Call.Args[0]) {
 				sorts = append(sorts, cl)
@@ -499,8 +521,11 @@ func sortedAfter(p *Prog, mr mapRange, ap *ssa.Call) (bool, []*ssa.Call) {
 			continue
 		}
 		first := s.Instrs[0]
-		ok, _ := mustPassFromBlock(first, isSort)
+		ok, wit := mustPassFromBlock(first, isSort)
 		if !ok {
+			if os.Getenv("SLUGCHECK_DEBUG") != "" {
+				fmt.Fprintf(os.Stderr, "sortedAfter: %s exit block %d first %v storeAddr %v witness %v\n", fn, s.Index, first, storeAddr, wit)
+			}
 			return false, nil
 		}
 	}
